@@ -225,7 +225,7 @@ func c18Program(r *rand.Rand, d int, fault string, useModule bool, handledFirst 
 }
 
 func checkC18(c *Ctx) {
-	c.rule = "runtime faults: call chains main -> 层1 -> … -> 层d (d = 0..4; levels >= 2 optionally in an imported module, level 1 optionally a type method) whose innermost body raises one of 11 fault kinds at a generator-known statement (plain, inside 如果, inside 遍历), with calls that returned earlier, an earlier handled exception, and multi-line literals / comments / bracket continuations / wide characters before the fault; rendered with LF, CR, CRLF or LFCR line ends, TAB or 4-space indents, blank lines and comments. The DisplayError text is parsed into (module, line, quoted text) entries and compared with the reference evaluator's call stack at the fault mapped to physical lines by the renderer: same entries in either printing order, no entry for a returned call, quoted text = that physical line. Syntax faults: an unknown character / stray closing bracket planted at a known offset of a valid program: line, quoted line and caret column (display width of the text before the character; ASCII 1, CJK/full-width 2). distinct_nontrivial = distinct (fault kind, depth, module/method/handled flags, line-end style, fault line)"
+	c.rule = "fixed location cases (27 hand-written programs: loop / branch conditions on later passes, hoisted definitions, failing imports and faults down a chain of modules, missing 输入, faults at call entry, lines after empty annotations, leftover indented lines) with every expected (module, line) written down; runtime faults: call chains main -> 层1 -> … -> 层d (d = 0..4; levels >= 2 optionally in an imported module, level 1 optionally a type method) whose innermost body raises one of 11 fault kinds at a generator-known statement (plain, inside 如果, inside 遍历), with calls that returned earlier, an earlier handled exception, and multi-line literals / comments / bracket continuations / wide characters before the fault; rendered with LF, CR, CRLF or LFCR line ends, TAB or 4-space indents, blank lines and comments. The DisplayError text is parsed into (module, line, quoted text) entries and compared with the reference evaluator's call stack at the fault mapped to physical lines by the renderer: same entries in either printing order, no entry for a returned call, quoted text = that physical line. Syntax faults: an unknown character / stray closing bracket planted at a known offset of a valid program: line, quoted line and caret column (display width of the text before the character; ASCII 1, CJK/full-width 2). distinct_nontrivial = distinct (fault kind, depth, module/method/handled flags, line-end style, fault line)"
 	c.assumptions = []string{"fault statements occupy one physical line", "for a fault inside a handler block only containment is judged (every entry is an active frame, outermost call site and faulting statement present); unterminated literals and EOF positions are not judged", "frames that have not started a statement yet (line unknown) are compared by module only"}
 	rng := c.Rand("c18")
 	type rcase struct {
@@ -414,6 +414,160 @@ func checkC18(c *Ctx) {
 		}
 	})
 	checkC18Syntax(c)
+	c18Fixed(c)
+}
+
+// c18Fixed: hand-written programs with the physical line of every expected entry written down;
+// places a fault can arise that are not ordinary statements of a body: a loop condition on a
+// later pass, hoisted definitions, import statements (also down a chain of modules), the 输入
+// line, the moment a call is entered, and lines after comments that contain nothing.
+func c18Fixed(c *Ctx) {
+	type fr struct {
+		mod  string
+		line int
+	}
+	type fx struct {
+		name    string
+		files   map[string]string
+		inputs  map[string]Val
+		accept  [][]fr // acceptable chains, outermost first
+		syntax  bool   // a syntax error is expected: accept[0][0] is its line, caretAt the rune under the marker
+		caretAt string
+	}
+	M := "主模块"
+	cases := []fx{
+		{name: "while-cond/later-pass", files: map[string]string{"main.zn": "令甲 = 2\n令乙 = 0\n每当 10 / 甲 > 0：\n\t乙 = 乙 + 1\n\t甲 = 甲 - 1\n"}, accept: [][]fr{{{M, 3}}}},
+		{name: "while-cond/call-on-later-pass", files: map[string]string{"main.zn": "令次 = 0\n如何查？\n\t输入数\n\t输出 10 / 数 > 0\n令甲 = 1\n每当 （查：甲）：\n\t令丙 = 1\n\t甲 = 甲 - 1\n"}, accept: [][]fr{{{M, 6}, {M, 4}}}},
+		{name: "while-cond/first-pass", files: map[string]string{"main.zn": "令甲 = 0\n\n每当 10 / 甲 > 0：\n\t甲 = 甲 - 1\n"}, accept: [][]fr{{{M, 3}}}},
+		{name: "branch-cond/elseif", files: map[string]string{"main.zn": "令甲 = 0\n如果 甲 > 5：\n\t令乙 = 1\n再如 1 / 甲 > 0：\n\t令乙 = 2\n"}, accept: [][]fr{{{M, 4}}, {{M, 2}}}},
+		{name: "hoisted/duplicate-method", files: map[string]string{"main.zn": "令甲 = 1\n令乙 = 2\n如何测试？\n\t输出 1\n\n如何测试？\n\t输出 2\n"}, accept: [][]fr{{{M, 6}}}},
+		{name: "hoisted/property-initialiser", files: map[string]string{"main.zn": "令甲 = 1\n令乙 = 2\n定义丙：\n\t其丁 = 1 / 0\n"}, accept: [][]fr{{{M, 3}}, {{M, 4}}}},
+		{name: "hoisted/constructor-of-unknown-type", files: map[string]string{"main.zn": "令甲 = 1\n令乙 = 2\n\n如何新建箱？\n\t输入值\n\t其值 = 值\n"}, accept: [][]fr{{{M, 4}}}},
+		{name: "hoisted/in-method-body", files: map[string]string{"main.zn": "如何外？\n\t令甲 = 1\n\t如何内？\n\t\t输出 1\n\t如何内？\n\t\t输出 2\n\t输出 3\n\n令子 = 1\n（外）\n"}, accept: [][]fr{{{M, 10}, {M, 5}}}},
+		{name: "import/missing-module", files: map[string]string{"main.zn": "注：“多行\n注释”\n导入“不存在”\n令甲 = 1\n"}, accept: [][]fr{{{M, 3}}}},
+		{name: "import/missing-library", files: map[string]string{"main.zn": "注：一\n注：二\n导入《@JSON》\n导入《@不存在的库》\n令甲 = 1\n"}, accept: [][]fr{{{M, 4}}}},
+		{name: "import/fault-down-a-chain", files: map[string]string{"main.zn": "注：一\n导入“甲”\n令子 = 1\n", "甲.zn": "注：一\n注：二\n导入“乙”\n如何甲法？\n\t输出 1\n", "乙.zn": "注：一\n注：二\n注：三\n令寅 = 1 / 0\n"}, accept: [][]fr{{{M, 2}, {"甲", 3}, {"乙", 4}}}},
+		{name: "import/cycle", files: map[string]string{"main.zn": "注：一\n导入“甲”\n", "甲.zn": "注：一\n注：二\n导入“乙”\n", "乙.zn": "注：一\n注：二\n注：三\n导入“甲”\n"}, accept: [][]fr{{{M, 2}, {"甲", 3}, {"乙", 4}}}},
+		{name: "input/missing-value", files: map[string]string{"main.zn": "注：a\n注：b\n输入甲\n令乙 = 1\n"}, accept: [][]fr{{{M, 3}}}},
+		{name: "call-entry/not-a-method", files: map[string]string{"main.zn": "注：a\n注：b\n令算 = 1\n令子 = 1\n（算：1、2）\n"}, accept: [][]fr{{{M, 5}}}},
+		{name: "call-entry/arity", files: map[string]string{"main.zn": "注：a\n注：b\n如何算？\n\t输入数\n\t输出 数\n\n令子 = 1\n（算：1、2）\n"}, accept: [][]fr{{{M, 8}}, {{M, 8}, {M, 3}}, {{M, 8}, {M, 4}}}},
+		{name: "call-entry/arity-in-module", files: map[string]string{"main.zn": "导入“甲”\n令子 = 1\n令丑 = 1\n（算：1、2）\n", "甲.zn": "注：a\n注：b\n如何算？\n\t输入数\n\t输出 数\n"}, accept: [][]fr{{{M, 4}}, {{M, 4}, {"甲", 3}}, {{M, 4}, {"甲", 4}}}},
+		{name: "call-entry/constructor-arity", files: map[string]string{"main.zn": "注：a\n定义箱：\n\t其值 = 0\n如何新建箱？\n\t输入值\n\t其值 = 值\n\n令物 = （新建箱：1、2）\n"}, accept: [][]fr{{{M, 8}}, {{M, 8}, {M, 4}}, {{M, 8}, {M, 5}}}},
+		{name: "comment/empty-annotation", files: map[string]string{"main.zn": "注：\n令甲 = 1\n令乙 = 1 / 0\n"}, accept: [][]fr{{{M, 3}}}},
+		{name: "comment/empty-numbered-annotation", files: map[string]string{"main.zn": "令子 = 1\n注12：\n令甲 = 1\n令乙 = 甲 / 0\n"}, accept: [][]fr{{{M, 4}}}},
+		{name: "comment/empty-annotation-cr", files: map[string]string{"main.zn": "注：\r令甲 = 1\r令乙 = 1 / 0\r"}, accept: [][]fr{{{M, 3}}}},
+		{name: "comment/empty-annotation-crlf", files: map[string]string{"main.zn": "注：\r\n令甲 = 1\r\n令乙 = 1 / 0\r\n"}, accept: [][]fr{{{M, 3}}}},
+		{name: "comment/empty-annotation-trailing", files: map[string]string{"main.zn": "令甲 = 1  注：\n令乙 = 2\n令丙 = 乙 / 0\n"}, accept: [][]fr{{{M, 3}}}},
+		{name: "comment/empty-annotation-undefined", files: map[string]string{"main.zn": "注：\n令甲 = 1\n输出 甲\n"}, accept: nil},
+		{name: "syntax/leftover-indented-line", files: map[string]string{"main.zn": "令甲 = 1\n    令乙 = 2\n令丙 = 3\n"}, accept: [][]fr{{{M, 2}}}, syntax: true, caretAt: "令"},
+		{name: "syntax/leftover-after-block", files: map[string]string{"main.zn": "如果 真：\n\t令甲 = 1\n\t\t令乙 = 2\n"}, accept: [][]fr{{{M, 3}}}, syntax: true, caretAt: "令"},
+		{name: "syntax/after-empty-annotation", files: map[string]string{"main.zn": "注：\n令甲 = 1\n令乙 = = 0\n"}, accept: [][]fr{{{M, 3}}}, syntax: true, caretAt: ""},
+	}
+	reqs := make([]Req, len(cases))
+	for i, k := range cases {
+		fl := []File{}
+		for p, src := range k.files {
+			fl = append(fl, File{Path: p, Data: widen([]byte(src))})
+		}
+		reqs[i] = Req{Op: "exec", Main: "main.zn", Files: fl, Libs: true, Inputs: k.inputs, EvalBudget: 20000, ParseBudget: 20000}
+	}
+	c.runBatches(reqs, 8, func(i int, req *Req, resp *Resp) {
+		c.Eval()
+		k := cases[i]
+		c.Count("fixed_location_cases", 1)
+		c.Nontrivial("fixed|" + k.name + "|" + resp.Kind)
+		key := "fixed:" + strings.SplitN(k.name, "/", 2)[0] + ":" + k.name
+		rp := map[string]interface{}{"req": req}
+		if k.accept == nil {
+			// no fault expected at all: the program must run to its end
+			if resp.Kind != "value" {
+				c.Violation(key, fmt.Sprintf("%s: the program is valid and must yield a value, observed %s %v\n%s", k.name, resp.Kind, resp.Err, k.files["main.zn"]), rp)
+			}
+			return
+		}
+		if resp.Kind != "error" || resp.Err == nil {
+			c.Violation(key, fmt.Sprintf("%s: expected an error report, observed %s\n%s", k.name, resp.Kind, k.files["main.zn"]), rp)
+			return
+		}
+		if k.syntax != (resp.Err.Class == "syntax") {
+			c.Violation(key, fmt.Sprintf("%s: expected syntax error = %v, observed class %s: %s", k.name, k.syntax, resp.Err.Class, resp.Err.Text), rp)
+			return
+		}
+		frames, caret, _, ok := parseErrorText(resp.Err.Text)
+		if !ok {
+			c.Violation(key, fmt.Sprintf("%s: error text has no message line:\n%s", k.name, resp.Err.Text), rp)
+			return
+		}
+		got := []fr{}
+		texts := []string{}
+		for _, f := range frames {
+			if !f.native {
+				got = append(got, fr{f.module, f.line})
+				texts = append(texts, f.text)
+			}
+		}
+		same := func(a, b []fr) bool {
+			if len(a) != len(b) {
+				return false
+			}
+			for x := range a {
+				if a[x] != b[x] {
+					return false
+				}
+			}
+			return true
+		}
+		rev := make([]fr, len(got))
+		for x := range got {
+			rev[len(got)-1-x] = got[x]
+		}
+		okChain := false
+		for _, a := range k.accept {
+			if same(got, a) || same(rev, a) {
+				okChain = true
+			}
+		}
+		if !okChain {
+			c.Violation(key, fmt.Sprintf("%s: the report names %v (as printed), expected %v (outermost first)\nerror text:\n%s\nmain.zn:\n%s", k.name, got, k.accept, resp.Err.Text, k.files["main.zn"]), rp)
+			return
+		}
+		// every quoted line is the physical line it names
+		for x, g := range got {
+			src := k.files["main.zn"]
+			if g.mod != M {
+				src = k.files[g.mod+".zn"]
+			}
+			if want := physLine(src, g.line); trimIndent(texts[x]) != trimIndent(want) {
+				c.Violation(key, fmt.Sprintf("%s: entry %s:%d quotes %q, but that line is %q", k.name, g.mod, g.line, texts[x], want), rp)
+				return
+			}
+		}
+		if k.syntax && k.caretAt != "" && len(got) > 0 {
+			line := []rune(physLine(k.files["main.zn"], got[0].line))
+			// caret is a display column relative to the quoted (indent-trimmed) line
+			trimmed := []rune(trimIndent(string(line)))
+			if w, okw := displayWidth(string(trimmed[:0])); okw && caret >= 0 {
+				_ = w
+				col := 0
+				at := -1
+				for x, ch := range trimmed {
+					if col == caret {
+						at = x
+						break
+					}
+					cw, _ := displayWidth(string(ch))
+					col += cw
+				}
+				if at < 0 || string(trimmed[at]) != k.caretAt {
+					under := "?"
+					if at >= 0 {
+						under = string(trimmed[at])
+					}
+					c.Violation(key, fmt.Sprintf("%s: the column marker is under %q, expected under the first offending character %q\nerror text:\n%s", k.name, under, k.caretAt, resp.Err.Text), rp)
+				}
+			}
+		}
+	})
 }
 
 func physLine(src string, n int) string {
